@@ -45,9 +45,11 @@ const (
 	sitePut   = "store.FileQueue.Put:between-empty-and-flush"
 	sitePutB  = "store.FileQueue.PutBatch:between-empty-and-flush"
 	siteWB    = "store.SyncFileDB.start:before-put"
+	siteLockB = "consensus.InsertBlock:holding-chain-lock"
+	siteLockC = "consensus.InsertConfirms:holding-chain-lock"
 )
 
-var allSites = []string{siteSig, siteBatch, siteIter, sitePut, sitePutB, siteWB}
+var allSites = []string{siteSig, siteBatch, siteIter, sitePut, sitePutB, siteWB, siteLockB, siteLockC}
 
 // TBlock is one pre-built block.
 type TBlock struct {
@@ -171,7 +173,7 @@ type unit struct {
 	reps  int
 }
 
-const nFixed = 6
+const nFixed = 8
 
 func units(c *run.Ctx) []unit {
 	nh := c.Pick(44, 240)
@@ -215,7 +217,7 @@ func runAll(c *run.Ctx) {
 		shape := ""
 		if u.fixed {
 			r = run.NewRng(77, 19, uint64(u.hist))
-			shape = []string{"deepchain", "forks", "mine", "bgsign", "lateconfirms", "lateconfirms"}[u.hist%6]
+			shape = []string{"deepchain", "forks", "mine", "bgsign", "lateconfirms", "lateconfirms", "minerace", "minerace"}[u.hist%8]
 		} else {
 			r = run.NewRng(c.Seed, 19, uint64(u.hist))
 		}
